@@ -102,11 +102,11 @@ INVENTORY = [
     ("utils/src/lib.rs quoted_str_split", "-", "Model/Quoted.v (C19): control socket only, not reachable over HTTP"),
     ("url-crawl/src/lib.rs LinkIter (file / upstream content: HTTP/2 push, reverse proxy)", "&self.data[pos + 1..]; &quote[..ending]; &self.data[..=pos]; "
      "&self.data[advance..]; QuoteType::from_byte(..).unwrap(); &data[..pos], &data[tag_start..tag_len + tag_start] in filters::resource",
-     "Model/UrlCrawl.v (both filters of the crate); link_iter_never_panics, link_iter_v0_refuted; FIXED fa13a8b; components urls.iter (compared), explore.urls"),
+     "Model/UrlCrawl.v (both filters of the crate); link_iter_never_panics, link_iter_v0_refuted; FIXED 4e78a7d; components urls.iter (compared), explore.urls"),
     ("extensions/src/templates.rs extract_templates / handle_template (file content: the operator's templates and the pages that name them)",
      "file.slice(start..end) x2; start_byte.take().unwrap() x5; &file[start..position - 1]; file[..=first_line_end]; file[placeholder_start + 2..position]",
      "Model/Templates.v (extract_templates, handle_template, the lazy lookup between them); template_engine_never_panics, template_engine_v0_refuted; "
-     "FIXED fe1115a (an empty last template); components tmpl.render (compared: what the real engine renders through handle_cache) and explore.file: "
+     "FIXED 176c67e (an empty last template); components tmpl.render (compared: what the real engine renders through handle_cache) and explore.file: "
      "template files and page bodies bounded-exhaustively over {$[ a b ] LF CRLF \\ SP}"),
     ("extensions/src/lib.rs download / cache / hide / ip_allow (Present), push (Post)", "argument parsers (split(':'), parse::<IpAddr>(), str::parse for cache "
      "preferences); c.replace(0..data_start, ..) in hide; &path[..=last_slash] in push (HTTP/2 only)",
@@ -374,7 +374,7 @@ def generate(rng, tier):
     cases.append(conn_case(b"GET /e.html HTTP/1.1\r\n\r\nGET /n.html HTTP/1.1\r\n\r\nGET /x.html HTTP/1.1\r\n\r\n", "corpus"))
     cases += range_cases(b"bytes=0-18446744073709551615", 10, "corpus")
     cases += [hdr_case(b"A: \n\n", "corpus"), hdr_case(b"A:\n\n", "corpus"), head_case(b"GET / HTTP/1.1\r\nA: \n\r\n", "corpus")]
-    # fe1115a (an empty last template), fa13a8b (a quote that is not closed)
+    # 176c67e (an empty last template), 4e78a7d (a quote that is not closed)
     cases += [file_case(b"!> tmpl T\n$[a]", b"$[a]\n", "corpus"), file_case(b"!> tmpl T\n<p>$[b]</p>", b"$[a]\nA\n$[b]\n", "corpus"),
               Case("explore.urls", xb(b"<img src=\"/abc"), None, {"kind": "corpus"}), Case("explore.urls", xb(b"<link href='/x.css"), None, {"kind": "corpus"}),
               Case("urls.iter", xl(xn(2), xbool(False), xb(b"<img src=\"/abc")), None, {"kind": "corpus"}),
@@ -880,7 +880,7 @@ ASSUMPTIONS = [
 TRUSTED = ["modelled here (Model/Panics.v): utils/src/parse.rs query, Query::{insert,index_of,iterate_to_first,iterate_to_last}, QueryPairIter "
            "(repaired code, commit 55bc7f7), src/comprash.rs PathQuery, src/extensions.rs stream_body (window arithmetic and the chunk loop); "
            "Model/Ims.v: the If-Modified-Since test of handle_cache incl. the time crate's parser for HTTP_DATE; Model/UrlCrawl.v: url_crawl::LinkIter "
-           "(repaired code, commit fa13a8b) and its two filters; Model/Templates.v: kvarn-extensions' extract_templates (repaired code, commit fe1115a) and "
+           "(repaired code, commit 4e78a7d) and its two filters; Model/Templates.v: kvarn-extensions' extract_templates (repaired code, commit 176c67e) and "
            "handle_template",
            "borrowed models (tied by their own properties and re-run here): Http1Read.v, Range.v, RangeConn.v, PathSan.v, Negotiate.v, Cors.v, Hosts.v, "
            "PresentLine.v, Limiter.v, Nonce.v",
